@@ -52,6 +52,15 @@ CHECKS = {
          "Bounded random search over eight transformations with known effect (sub/super-multiset, equality, partition, renaming).", "Trusts that each transformation is applied only where its documented precondition holds.", "3/C23"),
  "C25": ("single-fault injection into a contract-abiding adapter over generated schemas",
          "Bounded random search over (schema, fault coordinate, fault kind); the checker must fail iff a fault is injected at a coordinate it documents covering.", "Trusts the enumeration of documented-covered coordinates.", "3/C25"),
+ "C24": ("compile-time Send + Sync obligations in a separate crate, plus generated batches run concurrently on 2-16 threads in fresh processes and compared with the sequential results",
+         "The static part decides the bounds for the listed types on every run (a lost bound fails to compile). The dynamic part is bounded random search over batches of generated (schema, dataset, query, args) jobs; the operating system picks the interleavings, so it finds gross races and order-dependent shared state, not a rare interleaving.",
+         "Trusts rustc's auto-trait checking and that comparing IR text and row text detects a divergence; the first batch of every worker process starts its threads before the engine was used at all.", "3/C24"),
+ "C26": ("generated schemas with hostile naming plus a complete single-name grid; the generated stubs are compiled (tests included) as modules of one crate against /repo/trustfall",
+         "The grid enumerates every name of the hostile pools (all strict and reserved Rust keywords, case / underscore look-alikes, names of generated and prelude items) at each of 7 positions completely on every run; beyond it, bounded random search over generated schemas with several hostile names at once. The compile is the oracle, so cases are few (hundreds quick, thousands thorough).",
+         "Trusts rustc / cargo check --tests (quick) or cargo test --no-run (thorough), edition 2021 as in the repository's own stubgen tests, and the attribution of diagnostics to case directories.", "3/C26"),
+ "C27": ("differential testing of the Python bindings against the Rust engine over generated worlds (mirror adapter answering from recorded tables) plus Hypothesis-generated value round trips and non-convertible arguments",
+         "Bounded random search: 3 000 (quick) generated (schema, dataset, query, arguments) cases whose rows must equal the Rust engine's type- and bit-exactly, and 2 500 Hypothesis examples of values crossing the boundary in both directions. Says nothing about adapters that misbehave or about values outside the generators.",
+         "Trusts the mirror adapter (tables recorded from the honest Rust adapter), CPython's json/float parsing of shortest round-trip floats, Hypothesis, and that pytrustfall is built from the current tree.", "3/C27"),
  "C21": ("invariant over recorded adapter call histories checked against the schema AST and dataset",
          "Bounded random search; every adapter call must name defined types/fields, legal coercions, exactly the declared parameters with predicted values, and instances of the named type.", "Trusts the schema AST model and the recording wrapper.", "3/C21"),
 }
@@ -67,13 +76,13 @@ def main():
             "thorough_cmd": f"./check {pid} thorough",
             "evidence_file": f"/verif/evidence/{pid}.json",
             "replay_cmd_template": f"./check {pid} quick --replay {{path}}",
-            "engine": "tfv",
+            "engine": {"C26": "c26", "C27": "c27"}.get(pid, "tfv"),
             "level_claimed": {"category": "exploration", "text": text, "design_ref": f"DESIGN.md section {ref}"},
             "level_note": note,
             "technique": tech,
         })
     props = [json.loads(l)["id"] for l in open("/verif/properties.jsonl")]
-    na = [{"property_id": p, "reason": "check not built yet in this session; planned in DESIGN.md section 3 (no claim is made until the check exists)"} for p in props if p not in CHECKS]
+    na = [{"property_id": p, "reason": "no check is registered for this property: the Python-binding differential planned in DESIGN.md section 3/C27 was not built, so nothing is claimed about it (the technique applies; see DESIGN.md section 10)"} for p in props if p not in CHECKS]
     m = {
         "version": 1,
         "setup_cmd": "./setup.sh",
@@ -85,8 +94,12 @@ def main():
             "add_only": True,
         },
         "engines": [
-            {"name": "tfv", "path": "/verif/harness", "serves_properties": sorted(CHECKS.keys()),
-             "kind_free_text": "Rust harness: proptest-driven choice streams decoded into schemas/datasets/queries/schedules, reference models, adapter wrappers; one subcommand per property"},
+            {"name": "tfv", "path": "/verif/harness", "serves_properties": sorted(k for k in CHECKS if k not in ("C26", "C27")),
+             "kind_free_text": "Rust harness: proptest-driven choice streams decoded into schemas/datasets/queries/schedules, reference models, adapter wrappers; one subcommand per property (C24 also compiles /verif/c24, the Send + Sync obligations)"},
+            {"name": "c27", "path": "/verif/py", "serves_properties": ["C27"],
+             "kind_free_text": "Python runner (Hypothesis, tooling venv) over pytrustfall built from /repo; cases come from `tfcheck C27-EMIT` of the tfv harness; driven by scripts/check_C27.sh"},
+            {"name": "c26", "path": "/verif/stub", "serves_properties": ["C26"],
+             "kind_free_text": "Rust driver on top of the tfv library: generates schemas, calls trustfall_stubgen, writes a batch crate under /verif/scratch and compiles it with cargo"},
         ],
         "checks": checks,
         "not_applicable": na,
